@@ -825,6 +825,41 @@ def evaluator_hashes(repo):
     h['eval_number/number.rs'] = hashlib.sha256(norm(strip_hooks(non_test(read_rs(p)))).encode()).hexdigest()
     return h
 
+def evaluator_arms(repo):
+    """per evaluator: hash of every arm of the `match` in ast.rs `eval` (keyed by the node constructor), hash of everything
+    else in the file ('_other'), and the numeric literals the file mentions: a changed evaluator is localised to the
+    constructs it touches, which is where the search for a failing input concentrates"""
+    out = {}
+    files = [(ev, os.path.join(repo, 'src', 'eval_' + ev, 'ast.rs')) for ev in EVS] + [('number.rs', os.path.join(repo, 'src', 'eval_number', 'number.rs'))]
+    for ev, p in files:
+        src = strip_hooks(non_test(read_rs(p)))
+        arms, other = {}, src
+        body = fn_body(src, 'eval') if ev != 'number.rs' else None
+        if body:
+            other = src.replace(body, '', 1)
+            m = re.search(r'\bmatch\s+expr\s*\{', body)
+            if m:
+                mb, mend = block_after(body, m.start())
+                other += body[:m.start()] + body[mend:]
+                for pat, b in split_match_arms(mb):
+                    k = re.match(r'\w+', pat)
+                    k = k.group(0) if k else pat
+                    arms[k] = arms.get(k, '') + norm(pat + '=>' + b)
+            else:
+                other = src
+        lits = sorted(set(x.replace('_', '') for x in re.findall(r'(?<![\w.])\d[\d_]*(?:\.\d[\d_]*)?(?:e-?\d+)?', src)))
+        out[ev] = {'arms': {k: hashlib.sha256(v.encode()).hexdigest()[:16] for k, v in arms.items()},
+                   'other': hashlib.sha256(norm(other).encode()).hexdigest()[:16], 'literals': lits}
+    # numeric literals of every other source file (lexer, parser, utils, entry points): a new constant is a hint for the search
+    for root, _, fs in os.walk(os.path.join(repo, 'src')):
+        for f in sorted(fs):
+            rel = os.path.relpath(os.path.join(root, f), os.path.join(repo, 'src'))
+            if not f.endswith('.rs') or rel == 'verif_hooks.rs' or f == 'ast.rs' or rel == 'eval_number/number.rs':
+                continue
+            src = strip_hooks(non_test(read_rs(os.path.join(root, f))))
+            out['src/' + rel] = {'arms': {}, 'other': '', 'literals': sorted(set(x.replace('_', '') for x in re.findall(r'(?<![\w.])\d[\d_]*(?:\.\d[\d_]*)?(?:e-?\d+)?', src)))}
+    return out
+
 def scan_statics(repo):
     found = []
     for root, _, files in os.walk(os.path.join(repo, 'src')):
@@ -934,7 +969,7 @@ def main():
             mods[ev] = hashlib.sha256(norm(fn_body(ms, 'eval_' + ev) or '').encode()).hexdigest()
         ds = read_rs(os.path.join(a.repo, 'src', 'utils', 'deserialize_superscript_number.rs'))
         json.dump({'engine': eng, 'mods': mods, 'deser': hashlib.sha256(norm(ds).encode()).hexdigest(),
-                   'evaluators': evaluator_hashes(a.repo)}, open(a.shape, 'w'), indent=1)
+                   'evaluators': evaluator_hashes(a.repo), 'evaluator_arms': evaluator_arms(a.repo)}, open(a.shape, 'w'), indent=1)
         print('wrote', a.shape)
         return
     notes = []
@@ -945,6 +980,18 @@ def main():
            'Import ListNotations.', 'Local Open Scope N_scope.', '']
     cur = evaluator_hashes(a.repo)
     report['evaluator_sources_changed'] = sorted(k for k, v in cur.items() if shape.get('evaluators', {}).get(k) != v)
+    try:
+        ca, ra = evaluator_arms(a.repo), shape.get('evaluator_arms', {})
+        loc = {}
+        for ev, cur_ev in ca.items():
+            rec = ra.get(ev, {'arms': {}, 'other': None, 'literals': []})
+            ch = sorted(k for k in set(cur_ev['arms']) | set(rec['arms']) if cur_ev['arms'].get(k) != rec['arms'].get(k))
+            newl = [x for x in cur_ev['literals'] if x not in rec['literals']]
+            if ch or (cur_ev['other'] != rec['other'] and not ev.startswith('src/')) or newl:
+                loc[ev] = {'arms': ch, 'other_changed': cur_ev['other'] != rec['other'], 'new_literals': newl}
+        report['evaluator_changes'] = loc
+    except Exception as e:      # localisation is a search aid only
+        report['evaluator_changes'] = {'error': str(e)}
     sup = translate_sup_map(a.repo, notes)
     cats = translate_categories(a.repo, notes)
     if cats is not None:
